@@ -71,6 +71,7 @@ def witnesses(tier, seed):
         for which in ('forward', 'backward'):
             for n in ([2, 3, 4, 5, 8, 9, 12] if quick else [2, 3, 4, 5, 6, 7, 8, 9, 12, 16, 17]):
                 W.append(mk_subs(t, n, which))
+    W += pivot_helper_witnesses(['colwise'], tier)
     return group_sort(W)
 
 
